@@ -30,6 +30,7 @@ def setup() -> int:
             if not good:
                 ok = False
                 print(f"setup: SANY rejects {m}.tla\n" + "\n".join(out.splitlines()[-15:]))
+    tlc.sweep_jtmp()
     print(f"setup: {len(mods)} specification modules parsed")
     here = Path(__file__).resolve().parent
     if not compileall.compile_dir(str(here), quiet=1, legacy=False, force=False):
